@@ -31,6 +31,12 @@ const (
 	// built-in rules; those functions belong to that call.
 	StructTagLocalFn Kind = "struct-tag-after-call-local-functions"
 	VarLocalFn       Kind = "var-after-call-local-functions"
+	// MapLocalFn / UrlLocalFn (round 12): the same for the map and URL validators; and StructAfterAbandoned: the tagged
+	// type right after a call on it whose walk a panicking caller-supplied function abandoned (the caller recovered) and
+	// which carried a rule set of its own for the field.
+	MapLocalFn           Kind = "map-after-call-local-functions"
+	UrlLocalFn           Kind = "url-after-call-local-functions"
+	StructAfterAbandoned Kind = "struct-tag-after-a-call-abandoned-by-a-panicking-function"
 	// StructTagWide: the tagged field is the 70th field of its struct (66 untagged and 3 tagged fields before it).
 	StructTagWide Kind = "struct-tag-field-70"
 	// MapLarge: the entry stands among 24 other entries that no rule mentions.
@@ -68,7 +74,7 @@ const (
 )
 
 var All = []Kind{StructTag, StructRM, Var, Map, MapIface, SliceMap, Url, UrlEsc, StructTagHist, StructTagOtherTag, StructTagLocalFn, VarLocalFn, StructTagWide, MapLarge, StructRMAfterPlain, UrlMany, UrlTwice, UrlRMReused, StructWrappers, VarWrappers, MapWrappers, UrlWrappers,
-	StructFirstLocalFn, StructFirstOverride, StructFirstOtherTag, StructFirstNested, MapRMEdited, UrlRMEdited, StructRMEdited}
+	StructFirstLocalFn, StructFirstOverride, StructFirstOtherTag, StructFirstNested, MapRMEdited, UrlRMEdited, StructRMEdited, MapLocalFn, UrlLocalFn, StructAfterAbandoned}
 
 // Box is the named carrier type for per-call rules.
 type Box[T any] struct{ F T }
@@ -76,9 +82,9 @@ type Box[T any] struct{ F T }
 // PathPrefix is the path under which the value is reported by each carrier ("" = no path).
 func PathPrefix(k Kind, v reflect.Value) string {
 	switch k {
-	case StructTag, StructTagHist, StructTagOtherTag, StructTagLocalFn, StructTagWide, StructRMAfterPlain, StructWrappers, StructFirstLocalFn, StructFirstOverride, StructFirstOtherTag, StructFirstNested, StructRMEdited:
+	case StructTag, StructAfterAbandoned, StructTagHist, StructTagOtherTag, StructTagLocalFn, StructTagWide, StructRMAfterPlain, StructWrappers, StructFirstLocalFn, StructFirstOverride, StructFirstOtherTag, StructFirstNested, StructRMEdited:
 		return "F"
-	case MapLarge, MapWrappers, MapRMEdited:
+	case MapLarge, MapWrappers, MapRMEdited, MapLocalFn:
 		return "map[k]"
 	case StructRM:
 		return "Box[" + typeArgName(v.Type()) + "].F"
@@ -86,7 +92,7 @@ func PathPrefix(k Kind, v reflect.Value) string {
 		return "map[k]"
 	case SliceMap:
 		return "[0]map[k]"
-	case Url, UrlEsc, UrlMany, UrlTwice, UrlRMReused, UrlWrappers, UrlRMEdited:
+	case Url, UrlEsc, UrlMany, UrlTwice, UrlRMReused, UrlWrappers, UrlRMEdited, UrlLocalFn:
 		return "k"
 	}
 	return ""
@@ -177,7 +183,7 @@ func TagTypeWide(t reflect.Type, rules string) reflect.Type {
 }
 
 // builtinNames: rule names a call may shadow with functions of its own.
-var builtinNames = []string{"to", "ge", "le", "oto", "gt", "lt", "eq", "noeq", "in", "include", "phone", "email", "idcard", "year", "year2month", "date", "datetime", "int", "ints", "float", "re", "ip", "ipv4", "ipv6", "unique", "json", "prefix", "suffix", "file", "dir"}
+var builtinNames = []string{"required", "exist", "either", "botheq", "to", "ge", "le", "oto", "gt", "lt", "eq", "noeq", "in", "include", "phone", "email", "idcard", "year", "year2month", "date", "datetime", "int", "ints", "float", "re", "ip", "ipv4", "ipv6", "unique", "json", "prefix", "suffix", "file", "dir"}
 
 func quiet(errBuf *strings.Builder, validName, objName, fieldName string, tv reflect.Value) {}
 
@@ -290,7 +296,7 @@ func Supports(k Kind, v reflect.Value) bool {
 	switch k {
 	case Url:
 		return v.Kind() == reflect.String && !strings.ContainsAny(v.String(), "&=?#%+") && !hasCtl(v.String())
-	case UrlEsc, UrlMany, UrlTwice, UrlRMReused, UrlWrappers, UrlRMEdited:
+	case UrlEsc, UrlMany, UrlTwice, UrlRMReused, UrlWrappers, UrlRMEdited, UrlLocalFn:
 		return v.Kind() == reflect.String && !strings.ContainsAny(v.String(), "&=?#")
 	case StructRM:
 		return boxOf(v) != nil
@@ -367,6 +373,39 @@ func Validate(k Kind, v reflect.Value, rules string) (string, bool) {
 		first := reflect.New(st)
 		first.Elem().Field(0).Set(v)
 		_ = valid.StructForFns(first.Interface(), valid.RM{}, localFns())
+		p := reflect.New(st)
+		p.Elem().Field(0).Set(v)
+		err = valid.Struct(p.Interface())
+	case MapLocalFn:
+		m := reflect.MakeMap(reflect.MapOf(reflect.TypeOf(""), v.Type()))
+		m.SetMapIndex(reflect.ValueOf("k"), v)
+		_ = valid.MapFn(m.Interface(), valid.RM{"k": rules}, localFns())
+		vm := valid.NewVMap()
+		for n, f := range localFns() {
+			vm.SetValidFn(n, f)
+		}
+		_ = vm.SetRule(valid.RM{"k": rules}).Valid(m.Interface())
+		err = valid.Map(m.Interface(), valid.RM{"k": rules})
+	case UrlLocalFn:
+		u := "http://h/p?a=1&k=" + url.QueryEscape(v.String()) + "&z=2"
+		vu := valid.NewVUrl()
+		for n, f := range localFns() {
+			vu.SetValidFn(n, f)
+		}
+		_ = vu.SetRule(valid.RM{"k": rules}).Valid(u)
+		err = valid.Url(u, valid.RM{"k": rules})
+	case StructAfterAbandoned:
+		st := TagType(v.Type(), rules)
+		first := reflect.New(st)
+		first.Elem().Field(0).Set(v)
+		func() {
+			defer func() { _ = recover() }()
+			_ = valid.StructForFns(first.Interface(), valid.RM{"F": "abandon|zz,le=-9|zz"}, valid.Name2FnMap{"abandon": func(*strings.Builder, string, string, string, reflect.Value) { panic("caller-supplied function panics") }})
+		}()
+		func() {
+			defer func() { _ = recover() }()
+			_ = valid.NewVStruct().SetValidFn("abandon", func(*strings.Builder, string, string, string, reflect.Value) { panic("caller-supplied function panics") }).SetRule(valid.RM{"F": "required|zz,abandon"}, first.Interface()).Valid(first.Interface())
+		}()
 		p := reflect.New(st)
 		p.Elem().Field(0).Set(v)
 		err = valid.Struct(p.Interface())
